@@ -38,6 +38,7 @@ KeyOfEv(e) == [s |-> e.key.s, k |-> e.key.k, ns |-> IF e.tbl = "name" THEN e.key
 \* verdict of one event against the tables before it ("" = accepted)
 Verdict(e, Tb) ==
     IF e.op \in {"clone", "opaque", "reset"} THEN ""
+    ELSE IF e.op = "panic" THEN "a registration, lookup or parse panicked"
     ELSE LET t == Tb[e.tbl]  key == KeyOfEv(e)  kc == KnownCls(t, key) IN
     IF e.op = "bulk" THEN
         IF e.newcls # e.hi - e.lo THEN "bulk registration of fresh keys returned ids already in use (two keys share an id)"
@@ -52,7 +53,8 @@ Verdict(e, Tb) ==
         ELSE IF e.rb.s # key.s \/ e.rb.k # key.k \/ (e.tbl = "name" /\ e.rbns # key.ns) THEN "id reads back a different string"
         ELSE ""
     ELSE \* get
-        IF kc >= 0 /\ ~e.has THEN "a registered key is not found"
+        IF e.must /\ ~e.has THEN "a string registered implicitly by an accepted parse is not found"
+        ELSE IF kc >= 0 /\ ~e.has THEN "a registered key is not found"
         ELSE IF kc >= 0 /\ e.cls # kc THEN "lookup returned a different id than registration"
         ELSE IF kc < 0 /\ ~t.opaque /\ e.has THEN "a key that was never registered is found"
         ELSE IF kc < 0 /\ e.has /\ ClsTaken(t, e.cls) THEN "two different keys share an id"
@@ -65,7 +67,7 @@ Apply(e, Tb) ==
                        !["px"].keys = <<[key |-> K("", ""), cls |-> e.builtins.empty_prefix[1]], [key |-> K("xml", ""), cls |-> e.builtins.xml_prefix[1]]>>,
                        !["name"].keys = <<[key |-> K("space", XmlNsStr), cls |-> e.builtins.xml_space[1]], [key |-> K("id", XmlNsStr), cls |-> e.builtins.xml_id[1]]>>]
     ELSE IF e.op = "opaque" THEN [tb \in Tables |-> [Tb[tb] EXCEPT !.opaque = TRUE]]
-    ELSE IF e.op = "clone" THEN Tb
+    ELSE IF e.op \in {"clone", "panic"} THEN Tb
     ELSE IF e.op = "bulk" THEN [Tb EXCEPT ![e.tbl].bulks = Append(@, [lo |-> e.lo, hi |-> e.hi, first |-> e.firstcls])]
     ELSE IF e.has /\ KnownCls(Tb[e.tbl], KeyOfEv(e)) < 0 THEN [Tb EXCEPT ![e.tbl].keys = Append(@, [key |-> KeyOfEv(e), cls |-> e.cls])]
     ELSE Tb
